@@ -9,8 +9,9 @@ import CifModel.Lemmas.LexDefectChar
                  `x` is scanned — ONE CIF_INVALID_CHAR at the column behind `x`, `l` replaced by U+FFFD (HANDLE_UNPAIRED_LEAD), `x` kept.
   A token body is then `s₀ e₁ s₁ e₂ … eₙ sₙ` with admissible runs `sᵢ` (`Body`).  `multi`: every scan function that crosses
   admissible runs (`…_prefix`) and events one at a time crosses the whole body; the reports are those of all events, each at its
-  own column, in order.  Instantiated for data names (scan_to_ws), comments (scan_to_eol) and quoted strings (scan_delim_string,
-  CIF 2.0): `multi_name`, `multi_comment`, `multi_quoted`.
+  own column, in order.  Instantiated for data names (scan_to_ws), comments (scan_to_eol), quoted strings (scan_delim_string,
+  CIF 2.0) and whitespace-delimited values (scan_unquoted, with its keyword state: `multiS`): `multi_name`, `multi_comment`,
+  `multi_quoted`, `multi_bare`.
 -/
 namespace CifModel.Model.Lexer
 open CifModel CifModel.Model CifModel.Model.Chars CifModel.Model.Parser CifModel.Spec.Lexical
@@ -269,5 +270,99 @@ theorem multi_quoted (q : Nat) (hq : q = 34 ∨ q = 39) (body : Body) (sN ctx : 
   cases ctx with
   | nil => simp [keyPeek, mkTok]
   | cons d r => simp [keyPeek, mkTok, hcolon d r rfl]
+
+/-! ### whitespace-delimited values: scan_unquoted carries the `data_` / `save_` keyword state along -/
+
+/-- `multi` for a scan function with further state that the runs and events may change -/
+theorem multiS {β σ : Type} (F : Str → Nat → Str → σ → List Report → β) (clean : Str → Prop) (okEv : Ev → Prop) (line : Nat)
+    (hpre : ∀ (s R : Str) (col : Nat) (acc : Str) (st : σ) (log : List Report), clean s →
+      ∃ st', F (s ++ R) col acc st log = F R (col + colAdd s) (s.reverse ++ acc) st' log)
+    (hev : ∀ (e : Ev) (R : Str) (col : Nat) (acc : Str) (st : σ) (log : List Report), okEv e →
+      ∃ st', F (e.inp ++ R) col acc st log = F R (col + e.adv) (e.out.reverse ++ acc) st' (e.reps line col ++ log)) :
+    ∀ (body : Body) (R : Str) (col : Nat) (acc : Str) (st : σ) (log : List Report),
+      (∀ p ∈ body, clean p.1 ∧ okEv p.2) →
+      ∃ st', F (body.inp ++ R) col acc st log = F R (body.col col) (body.out.reverse ++ acc) st' (body.reps line col ++ log)
+  | [], R, col, acc, st, log, _ => ⟨st, by simp [Body.inp, Body.out, Body.col, Body.reps]⟩
+  | (s, e) :: r, R, col, acc, st, log, h => by
+    have h1 := h (s, e) List.mem_cons_self
+    obtain ⟨st1, e1⟩ := hpre s (e.inp ++ (Body.inp r ++ R)) col acc st log h1.1
+    obtain ⟨st2, e2⟩ := hev e (Body.inp r ++ R) (col + colAdd s) (s.reverse ++ acc) st1 log h1.2
+    obtain ⟨st3, e3⟩ := multiS F clean okEv line hpre hev r R (col + colAdd s + e.adv) (e.out.reverse ++ (s.reverse ++ acc)) st2
+      (e.reps line (col + colAdd s) ++ log) (fun p hp => h p (List.mem_cons_of_mem _ hp))
+    refine ⟨st3, ?_⟩
+    simp only [Body.inp, List.append_assoc]
+    rw [e1, e2, e3]
+    simp [Body.out, Body.col, Body.reps, List.append_assoc]
+
+/-- scan_unquoted -/
+def EvUnq (dia : Dialect) (line : Nat) (e : Ev) : Prop :=
+  ∀ (R : Str) (col : Nat) (acc : Str) (k : Nat) (kd ks : Bool) (log : List Report),
+    ∃ k' kd' ks', scanUnquoted dia (e.inp ++ R) line col false acc k kd ks acceptAll log
+      = scanUnquoted dia R line (col + e.adv) false (e.out.reverse ++ acc) k' kd' ks' acceptAll (e.reps line col ++ log)
+
+theorem EvUnq.of1 {c c' : Nat} {reps : Nat → Nat → List Report} (hD : Defect1 dia c c' reps) (line : Nat) :
+    EvUnq dia line (Ev.of1 c c' reps) := by
+  intro R col acc k kd ks log
+  obtain ⟨kd', ks', h⟩ := hD.unquoted_step R line col acc k kd ks log
+  exact ⟨k + 1, kd', ks', by simpa [Ev.of1] using h⟩
+
+theorem EvUnq.lead (l x : Nat) (hl : isLeadU l = true) (hx : plainUnit x) (hg : metaOfCls (classOf .cif2 x) = .general) (line : Nat) :
+    EvUnq .cif2 line (Ev.lead l x) := by
+  intro R col acc k kd ks log
+  obtain ⟨e1, e2⟩ := lead_then_plain l x hl hx line col acc log
+  have hlg : metaOfCls (classOf .cif2 l) = .general := by rw [lead_cls l hl]; rfl
+  refine ⟨k + 1 + 1,
+    (if k + 1 < 5 then (if k < 5 then kd && (classOf .cif2 l == dataCls k) else kd) && (classOf .cif2 x == dataCls (k + 1))
+      else (if k < 5 then kd && (classOf .cif2 l == dataCls k) else kd)),
+    (if k + 1 < 5 then (if k < 5 then ks && (classOf .cif2 l == saveCls k) else ks) && (classOf .cif2 x == saveCls (k + 1))
+      else (if k < 5 then ks && (classOf .cif2 l == saveCls k) else ks)), ?_⟩
+  simp only [Ev.lead, List.cons_append, List.nil_append]
+  conv => lhs; simp only [scanUnquoted, bind_eq, pure_eq]
+  rw [L.bind_ok e1]
+  simp only [fixAcc_false, hlg]
+  conv => lhs; simp only [scanUnquoted, bind_eq, pure_eq]
+  rw [L.bind_ok e2]
+  simp only [hg]
+  simp [fixAcc, replChar]
+
+/-- **a whitespace-delimited value with any number of defective places**: the input `s₀ e₁ s₁ … eₙ sₙ` (first unit `f`: one that
+    starts an unquoted token at this column) up to whitespace or the end of the input; the text put together from the runs and the
+    outputs of the events is not a reserved word -/
+theorem multi_bare (body : Body) (sN ctx : Str) (f : Nat) (r : Str) (line col : Nat) (log : List Report)
+    (hb : ∀ p ∈ body, (nonBlankOk dia p.1 = true ∧
+        (dia = .cif2 → p.1.all (fun x => !(x == 91 || x == 93 || x == 123 || x == 125)) = true)) ∧ EvUnq dia line p.2)
+    (hN : nonBlankOk dia sN = true) (hNb : dia = .cif2 → sN.all (fun x => !(x == 91 || x == 93 || x == 123 || x == 125)) = true)
+    (hin : body.inp ++ (sN ++ ctx) = f :: r) (hstart : bareStart dia f col = true)
+    (hres : isReservedWord (body.out ++ sN) = false) (hctx : wsOrEnd ctx = true) :
+    stepTok dia true f r line col acceptAll log
+      = .ok (.tok ⟨.value, body.out ++ sN, line, body.col col + colAdd sN⟩ ⟨ctx, line, body.col col + colAdd sN⟩)
+          (body.reps line col ++ log) := by
+  simp only [nonBlankOk, Bool.and_eq_true] at hN
+  obtain ⟨⟨k', kd', ks'⟩, hm⟩ := multiS
+    (fun inp c acc (st : Nat × Bool × Bool) lg => scanUnquoted dia inp line c false acc st.1 st.2.1 st.2.2 acceptAll lg)
+    (fun s => nonBlankOk dia s = true ∧ (dia = .cif2 → s.all (fun x => !(x == 91 || x == 93 || x == 123 || x == 125)) = true))
+    (EvUnq dia line) line
+    (fun s R c acc st lg hs => by
+      have h1 := hs.1
+      simp only [nonBlankOk, Bool.and_eq_true] at h1
+      have := scanUnquoted_prefix dia R line acceptAll lg s none acc c st.1 st.2.1 st.2.2 h1.1 trivial h1.2 hs.2
+      exact ⟨(_, _, _), by simpa using this⟩)
+    (fun e R c acc st lg he => by
+      obtain ⟨k1, kd1, ks1, h⟩ := he R c acc st.1 st.2.1 st.2.2 lg
+      exact ⟨(k1, kd1, ks1), h⟩)
+    body (sN ++ ctx) col [] (0, true, true) log hb
+  have hscan : scanUnquoted dia (f :: r) line col false [] 0 true true acceptAll log
+      = .ok ⟨(body.out ++ sN).reverse, ⟨ctx, line, body.col col + colAdd sN⟩⟩ (body.reps line col ++ log) := by
+    rw [← hin]
+    simp only at hm
+    rw [hm]
+    have := scanUnquoted_ok dia ctx (wsOrEnd_iff hctx) line acceptAll (body.reps line col ++ log) sN none (body.out.reverse ++ [])
+      (body.col col) k' kd' ks' hN.1 trivial hN.2 hNb
+    simp only [Option.isSome_none] at this
+    rw [this]
+    simp
+  have hcv := classify_value dia (body.out ++ sN) hres
+  rw [unquoted_dispatch dia f r line col hstart, L.bind_ok hscan]
+  simp [finishUnquoted, hcv, mkTok]
 
 end CifModel.Model.Lexer
